@@ -1,5 +1,5 @@
 (* FlattenProofs.v -- C06: lemmas about the flattening model (FlattenDefs.v). *)
-From Coq Require Import List String Ascii ZArith QArith Bool Arith Lia Permutation.
+From Coq Require Import List String Ascii ZArith QArith Bool Arith Lia Permutation Sorted.
 From LC Require Import Common NumDefs UnitsDefs FlattenDefs.
 Import ListNotations.
 Local Open Scope string_scope.
@@ -1355,3 +1355,302 @@ Lemma flatten_ids_repaired :
   exists flat st, flatten_model 10 50 flat_all_fixed [ids_lib] ids_origin 100 = FOk (flat, st) /\
     map (fun e => (e_map e, e_conn e)) (m_eqs flat) = [("map0", "conn0"); ("map1", "conn1")].
 Proof. eexists. eexists. split; vm_compute; reflexivity. Qed.
+
+(* ================================================================================== what the recorded map contains *)
+
+Definition em_has (m : eqmap) (k t : path) : Prop := exists ts, In (k, ts) m /\ In t ts.
+
+Lemma em_add_has : forall k t m k' t', em_has (em_add k t m) k' t' <-> (k' = k /\ t' = t) \/ em_has m k' t'.
+Proof.
+  intros k t m. induction m as [|[k0 ts0] r IH]; intros k' t'; cbn [em_add].
+  - split.
+    + intros [ts [[E|[]] Ht]]. inversion E; subst. destruct Ht as [Ht|[]]. left. split; [reflexivity | symmetry; exact Ht].
+    + intros [[Ek Et]|[ts [[] _]]]. subst. exists [t]. split; left; reflexivity.
+  - destruct (path_eqb k k0) eqn:Ek.
+    + apply path_eqb_eq in Ek. subst k0. split.
+      * intros [ts [[E|Hin] Ht]].
+        -- inversion E; subst. apply in_app_or in Ht. destruct Ht as [Ht|[Ht|[]]].
+           ++ right. exists ts0. split; [left; reflexivity | exact Ht].
+           ++ left. split; [reflexivity | symmetry; exact Ht].
+        -- right. exists ts. split; [right; exact Hin | exact Ht].
+      * intros [[E1 E2]|[ts [[E|Hin] Ht]]].
+        -- subst. exists (ts0 ++ [t]). split; [left; reflexivity | apply in_or_app; right; left; reflexivity].
+        -- inversion E; subst. exists (ts ++ [t]). split; [left; reflexivity | apply in_or_app; left; exact Ht].
+        -- exists ts. split; [right; exact Hin | exact Ht].
+    + destruct (lex_ltb k k0).
+      * split.
+        -- intros [ts [[E|Hin] Ht]].
+           ++ inversion E; subst. destruct Ht as [Ht|[]]. left. split; [reflexivity | symmetry; exact Ht].
+           ++ right. exists ts. split; assumption.
+        -- intros [[E1 E2]|[ts [Hin Ht]]].
+           ++ subst. exists [t]. split; left; reflexivity.
+           ++ exists ts. split; [right; exact Hin | exact Ht].
+      * split.
+        -- intros [ts [[E|Hin] Ht]].
+           ++ right. exists ts. split; [left; exact E | exact Ht].
+           ++ assert (Hh : em_has (em_add k t r) k' t') by (exists ts; split; assumption).
+              apply IH in Hh. destruct Hh as [Hl|[ts' [Hin' Ht']]]; [left; exact Hl|].
+              right. exists ts'. split; [right; exact Hin' | exact Ht'].
+        -- intros [Hl|[ts [[E|Hin] Ht]]].
+           ++ assert (Hh : em_has (em_add k t r) k' t') by (apply IH; left; exact Hl).
+              destruct Hh as [ts' [Hin' Ht']]. exists ts'. split; [right; exact Hin' | exact Ht'].
+           ++ exists ts. split; [left; exact E | exact Ht].
+           ++ assert (Hh : em_has (em_add k t r) k' t') by (apply IH; right; exists ts; split; assumption).
+              destruct Hh as [ts' [Hin' Ht']]. exists ts'. split; [right; exact Hin' | exact Ht'].
+Qed.
+
+(* variable v (at stack key) has an equivalent variable that index_stack_of finds at t *)
+Definition equiv_at (m : model) (v : variable) (t : path) : Prop :=
+  exists e, In e (eqs_of (m_eqs m) (v_oid v)) /\ index_stack_of m (fst (fst e)) = Some t.
+
+Lemma record_var_spec : forall m key v acc k t,
+  em_has (record_var m key v acc) k t <-> em_has acc k t \/ (k = key /\ equiv_at m v t).
+Proof.
+  intros m key v acc k t. unfold record_var, equiv_at. generalize (eqs_of (m_eqs m) (v_oid v)) as l. intros l. revert acc.
+  induction l as [|e r IH]; intros acc; cbn [fold_left].
+  - split; [intros H; left; exact H | intros [H|[_ [e [[] _]]]]; exact H].
+  - rewrite IH. destruct (index_stack_of m (fst (fst e))) as [p|] eqn:Ep.
+    + rewrite em_add_has. split.
+      * intros [[[E1 E2]|H]|[Ek [e' [Hin He]]]].
+        -- right. subst. split; [reflexivity|]. exists e. split; [left; reflexivity | exact Ep].
+        -- left. exact H.
+        -- right. split; [exact Ek|]. exists e'. split; [right; exact Hin | exact He].
+      * intros [H|[Ek [e' [[E|Hin] He]]]].
+        -- left. right. exact H.
+        -- subst e'. left. left. split; [exact Ek | congruence].
+        -- right. split; [exact Ek|]. exists e'. split; assumption.
+    + split.
+      * intros [H|[Ek [e' [Hin He]]]]; [left; exact H|]. right. split; [exact Ek|]. exists e'. split; [right; exact Hin | exact He].
+      * intros [H|[Ek [e' [[E|Hin] He]]]]; [left; exact H | subst e'; congruence|]. right. split; [exact Ek|]. exists e'. split; assumption.
+Qed.
+
+Lemma record_vars_spec : forall m stack l i acc k t,
+  em_has (record_vars m stack i l acc) k t <->
+  em_has acc k t \/ exists v, In (k, v) (idx_vars stack i l) /\ equiv_at m v t.
+Proof.
+  intros m stack l. induction l as [|v r IH]; intros i acc k t; cbn [record_vars idx_vars].
+  - split; [intros H; left; exact H | intros [H|[v [[] _]]]; exact H].
+  - rewrite IH, record_var_spec. split.
+    + intros [[H|[Ek He]]|[w [Hin He]]].
+      * left. exact H.
+      * right. exists v. split; [left; subst; reflexivity | exact He].
+      * right. exists w. split; [right; exact Hin | exact He].
+    + intros [H|[w [[E|Hin] He]]].
+      * left. left. exact H.
+      * inversion E; subst. left. right. split; [reflexivity | exact He].
+      * right. exists w. split; assumption.
+Qed.
+
+Lemma record_comp_unfold : forall m stack o n i mt vars kids acc,
+  record_comp m stack (Comp o n i mt vars kids) acc = record_comps m stack 0 kids (record_vars m stack 0 vars acc).
+Proof.
+  intros m stack o n i mt vars kids acc. cbn [record_comp]. generalize (record_vars m stack 0 vars acc) as a. generalize 0 as j.
+  induction kids as [|k r IH]; intros j a; [reflexivity|]. cbn [record_comps]. apply IH.
+Qed.
+
+Lemma comp_vars_at_unfold : forall pre o n i mt vars kids,
+  comp_vars_at pre (Comp o n i mt vars kids) = idx_vars pre 0 vars ++ comps_vars_at pre 0 kids.
+Proof.
+  intros pre o n i mt vars kids. cbn [comp_vars_at]. f_equal. generalize 0 as j.
+  induction kids as [|k r IH]; intros j; [reflexivity|]. cbn [comps_vars_at]. rewrite IH. reflexivity.
+Qed.
+
+Section CompInd.
+  Variable P : comp -> Prop.
+  Hypothesis HP : forall o n i m v kids, Forall P kids -> P (Comp o n i m v kids).
+  Fixpoint comp_ind3 (c : comp) : P c :=
+    match c with
+    | Comp o n i m v kids =>
+        HP o n i m v kids ((fix go (l : list comp) : Forall P l :=
+                             match l with
+                             | [] => Forall_nil P
+                             | k :: r => Forall_cons k (comp_ind3 k) (go r)
+                             end) kids)
+    end.
+End CompInd.
+
+(* record_comp_spec: the recorded map holds exactly, for every variable of the component's encapsulation tree (at its index
+   stack), the index stacks of its equivalent variables that live in the same model *)
+Theorem record_comp_spec : forall m c stack acc k t,
+  em_has (record_comp m stack c acc) k t <->
+  em_has acc k t \/ exists v, In (k, v) (comp_vars_at stack c) /\ equiv_at m v t.
+Proof.
+  intros m c. induction c as [o n i mt vars kids IHk] using comp_ind3. intros stack acc k t.
+  rewrite record_comp_unfold, comp_vars_at_unfold.
+  assert (Hks : forall l j a, Forall (fun c => forall stack acc k t,
+                  em_has (record_comp m stack c acc) k t <-> em_has acc k t \/ exists v, In (k, v) (comp_vars_at stack c) /\ equiv_at m v t) l ->
+                em_has (record_comps m stack j l a) k t <-> em_has a k t \/ exists v, In (k, v) (comps_vars_at stack j l) /\ equiv_at m v t).
+  { induction l as [|c0 r IHr]; intros j a Hall; cbn [record_comps comps_vars_at].
+    - split; [intros H; left; exact H | intros [H|[v [[] _]]]; exact H].
+    - inversion Hall as [|? ? Hc0 Hr]; subst. rewrite (IHr _ _ Hr), Hc0. split.
+      + intros [[H|[v [Hin He]]]|[v [Hin He]]].
+        * left. exact H.
+        * right. exists v. split; [apply in_or_app; left; exact Hin | exact He].
+        * right. exists v. split; [apply in_or_app; right; exact Hin | exact He].
+      + intros [H|[v [Hin He]]]; [left; left; exact H|]. apply in_app_or in Hin. destruct Hin as [Hin|Hin].
+        * left. right. exists v. split; assumption.
+        * right. exists v. split; assumption. }
+  rewrite (Hks kids 0 _ IHk), record_vars_spec. split.
+  - intros [[H|[v [Hin He]]]|[v [Hin He]]].
+    + left. exact H.
+    + right. exists v. split; [apply in_or_app; left; exact Hin | exact He].
+    + right. exists v. split; [apply in_or_app; right; exact Hin | exact He].
+  - intros [H|[v [Hin He]]]; [left; left; exact H|]. apply in_app_or in Hin. destruct Hin as [Hin|Hin].
+    + left. right. exists v. split; assumption.
+    + right. exists v. split; assumption.
+Qed.
+
+(* ---- the recorded map is a std::map: keys strictly increasing, every entry has a target *)
+
+Lemma lex_ltb_irrefl : forall a, lex_ltb a a = false.
+Proof. induction a as [|x a IH]; cbn [lex_ltb]; [reflexivity|]. rewrite Nat.ltb_irrefl. exact IH. Qed.
+
+Lemma lex_ltb_trans : forall a b c, lex_ltb a b = true -> lex_ltb b c = true -> lex_ltb a c = true.
+Proof.
+  induction a as [|x a IH]; intros [|y b] [|z c] H1 H2; cbn [lex_ltb] in *; try discriminate; try reflexivity.
+  destruct (Nat.ltb x y) eqn:Exy.
+  - apply Nat.ltb_lt in Exy. destruct (Nat.ltb y z) eqn:Eyz.
+    + apply Nat.ltb_lt in Eyz. replace (Nat.ltb x z) with true by (symmetry; apply Nat.ltb_lt; lia). reflexivity.
+    + destruct (Nat.ltb z y) eqn:Ezy; [discriminate|]. apply Nat.ltb_ge in Eyz. apply Nat.ltb_ge in Ezy.
+      replace (Nat.ltb x z) with true by (symmetry; apply Nat.ltb_lt; lia). reflexivity.
+  - destruct (Nat.ltb y x) eqn:Eyx; [discriminate|]. apply Nat.ltb_ge in Exy. apply Nat.ltb_ge in Eyx. assert (x = y) by lia. subst y.
+    destruct (Nat.ltb x z) eqn:Exz; [reflexivity|]. destruct (Nat.ltb z x); [discriminate|]. apply (IH _ _ H1 H2).
+Qed.
+
+Lemma lex_ltb_total : forall a b, path_eqb a b = false -> lex_ltb a b = false -> lex_ltb b a = true.
+Proof.
+  induction a as [|x a IH]; intros [|y b] H1 H2; cbn [lex_ltb path_eqb] in *; try discriminate; try reflexivity.
+  destruct (Nat.ltb x y) eqn:Exy; [discriminate|]. destruct (Nat.ltb y x) eqn:Eyx; [reflexivity|].
+  apply Nat.ltb_ge in Exy. apply Nat.ltb_ge in Eyx. assert (x = y) by lia. subst y. rewrite Nat.eqb_refl in H1. cbn [andb] in H1.
+  apply IH; assumption.
+Qed.
+
+Definition key_lt (a b : path) : Prop := lex_ltb a b = true.
+
+Record em_ok (m : eqmap) : Prop := { eo_sorted : StronglySorted key_lt (em_keys m); eo_nonempty : Forall (fun kv => snd kv <> []) m }.
+
+Lemma em_add_keys_in : forall k t m x, In x (em_keys (em_add k t m)) -> x = k \/ In x (em_keys m).
+Proof.
+  intros k t m. induction m as [|[k0 ts0] r IH]; intros x H; cbn [em_add em_keys map] in *.
+  - destruct H as [H|[]]. left. symmetry. exact H.
+  - destruct (path_eqb k k0); [right; exact H|]. destruct (lex_ltb k k0).
+    + destruct H as [H|H]; [left; symmetry; exact H | right; exact H].
+    + destruct H as [H|H]; [right; left; exact H|]. destruct (IH _ H) as [E|E]; [left; exact E | right; right; exact E].
+Qed.
+
+Lemma em_add_ok : forall k t m, em_ok m -> em_ok (em_add k t m).
+Proof.
+  intros k t m. induction m as [|[k0 ts0] r IH]; intros [Hs Hn]; cbn [em_add].
+  - constructor; cbn; [constructor; constructor | constructor; [discriminate | constructor]].
+  - cbn [em_keys map] in Hs. inversion Hs as [|? ? Hs' Hlt]; subst. inversion Hn as [|? ? Hn0 Hn']; subst.
+    destruct (path_eqb k k0) eqn:Ek.
+    + constructor; cbn [em_keys map]; [constructor; assumption|]. constructor; [cbn; destruct ts0; discriminate | exact Hn'].
+    + destruct (lex_ltb k k0) eqn:El.
+      * constructor; cbn [em_keys map].
+        -- constructor; [constructor; assumption|]. constructor; [exact El|].
+           rewrite Forall_forall in *. intros x Hx. unfold key_lt. apply (lex_ltb_trans _ _ _ El (Hlt x Hx)).
+        -- constructor; [discriminate | constructor; assumption].
+      * assert (Hr : em_ok r) by (constructor; assumption). destruct (IH Hr) as [Hs2 Hn2].
+        constructor; cbn [em_keys map].
+        -- constructor; [exact Hs2|]. rewrite Forall_forall in *. intros x Hx. destruct (em_add_keys_in _ _ _ _ Hx) as [E|E].
+           ++ subst x. unfold key_lt. apply lex_ltb_total; [|exact El]. destruct (path_eqb k0 k) eqn:E2; [|reflexivity].
+              apply path_eqb_eq in E2. subst. rewrite path_eqb_refl in Ek. discriminate.
+           ++ apply Hlt. exact E.
+        -- constructor; assumption.
+Qed.
+
+Lemma em_ok_nodup : forall m, em_ok m -> NoDup (em_keys m).
+Proof.
+  intros m [Hs _]. induction Hs as [|k r Hs IH Hlt]; constructor; [|exact IH].
+  intros Hin. rewrite Forall_forall in Hlt. specialize (Hlt k Hin). unfold key_lt in Hlt. rewrite lex_ltb_irrefl in Hlt. discriminate.
+Qed.
+
+Lemma record_var_ok : forall m key v acc, em_ok acc -> em_ok (record_var m key v acc).
+Proof.
+  intros m key v acc. unfold record_var. generalize (eqs_of (m_eqs m) (v_oid v)) as l. intros l. revert acc.
+  induction l as [|e r IH]; intros acc H; cbn [fold_left]; [exact H|]. apply IH.
+  destruct (index_stack_of m (fst (fst e))); [apply em_add_ok; exact H | exact H].
+Qed.
+
+Lemma record_vars_ok : forall m stack l i acc, em_ok acc -> em_ok (record_vars m stack i l acc).
+Proof.
+  intros m stack l. induction l as [|v r IH]; intros i acc H; cbn [record_vars]; [exact H|]. apply IH. apply record_var_ok. exact H.
+Qed.
+
+Lemma record_comp_ok : forall m c stack acc, em_ok acc -> em_ok (record_comp m stack c acc).
+Proof.
+  intros m c. induction c as [o n i mt vars kids IHk] using comp_ind3. intros stack acc H. rewrite record_comp_unfold.
+  assert (Hks : forall l j a, Forall (fun c => forall stack acc, em_ok acc -> em_ok (record_comp m stack c acc)) l -> em_ok a ->
+                em_ok (record_comps m stack j l a)).
+  { induction l as [|c0 r IHr]; intros j a Hall Ha; cbn [record_comps]; [exact Ha|]. inversion Hall; subst. apply IHr; auto. }
+  apply Hks; [exact IHk | apply record_vars_ok; exact H].
+Qed.
+
+(* the stacks of comp_vars_at extend the given prefix *)
+Lemma idx_vars_prefix : forall pre l i k v, In (k, v) (idx_vars pre i l) -> exists r, k = pre ++ r.
+Proof.
+  intros pre l. induction l as [|x r IH]; intros i k v H; [destruct H|]. cbn [idx_vars] in H.
+  destruct H as [E|H]; [inversion E; eexists; reflexivity | apply (IH _ _ _ H)].
+Qed.
+
+Lemma comp_vars_at_prefix : forall c pre k v, In (k, v) (comp_vars_at pre c) -> exists r, k = pre ++ r.
+Proof.
+  intros c. induction c as [o n i mt vars kids IHk] using comp_ind3. intros pre k v H. rewrite comp_vars_at_unfold in H.
+  apply in_app_or in H. destruct H as [H|H]; [apply (idx_vars_prefix _ _ _ _ _ H)|].
+  assert (Hks : forall l j, Forall (fun c => forall pre k v, In (k, v) (comp_vars_at pre c) -> exists r, k = pre ++ r) l ->
+                In (k, v) (comps_vars_at pre j l) -> exists r, k = pre ++ r).
+  { induction l as [|c0 r IHr]; intros j Hall Hin; [destruct Hin|]. inversion Hall as [|? ? Hc0 Hr]; subst. cbn [comps_vars_at] in Hin.
+    apply in_app_or in Hin. destruct Hin as [Hin|Hin]; [|apply (IHr _ Hr Hin)].
+    destruct (Hc0 _ _ _ Hin) as [r0 Hr0]. exists ([j] ++ r0). rewrite Hr0. rewrite <- app_assoc. reflexivity. }
+  apply (Hks kids 0 IHk H).
+Qed.
+
+Lemma record_comp_keys : forall m c stack k, In k (em_keys (record_comp m stack c [])) -> exists r, k = stack ++ r.
+Proof.
+  intros m c stack k Hin.
+  assert (Hok : em_ok (record_comp m stack c [])) by (apply record_comp_ok; constructor; constructor).
+  unfold em_keys in Hin. apply in_map_iff in Hin. destruct Hin as [[k0 ts] [E Hin]]. cbn in E. subst k0.
+  destruct Hok as [_ Hn]. rewrite Forall_forall in Hn. specialize (Hn _ Hin). cbn in Hn.
+  destruct ts as [|t ts']; [congruence|].
+  assert (Hh : em_has (record_comp m stack c []) k t) by (exists (t :: ts'); split; [exact Hin | left; reflexivity]).
+  apply record_comp_spec in Hh. destruct Hh as [[ts0 [[] _]]|[v [Hv _]]]. apply (comp_vars_at_prefix _ _ _ _ Hv).
+Qed.
+
+Lemma app_inv_prefix : forall (A : Type) (p a b : list A), p ++ a = p ++ b -> a = b.
+Proof. intros A p. induction p as [|x p IH]; intros a b H; cbn in H; [exact H|]. inversion H. apply IH. assumption. Qed.
+
+Lemma record_comp_rebased_nodup : forall m c origin dest,
+  NoDup (map (fun kv => rebase_stack (fst kv) origin dest) (record_comp m origin c [])).
+Proof.
+  intros m c origin dest.
+  assert (Hok : em_ok (record_comp m origin c [])) by (apply record_comp_ok; constructor; constructor).
+  pose proof (em_ok_nodup _ Hok) as Hnd. pose proof (record_comp_keys m c origin) as Hpre.
+  unfold em_keys in *. revert Hnd Hpre. generalize (record_comp m origin c []) as em. intros em.
+  induction em as [|[k ts] r IH]; intros Hnd Hpre; cbn [map]; [constructor|].
+  cbn [map fst] in Hnd. inversion Hnd as [|? ? Hn Hr]; subst. constructor.
+  - intros Hin. apply in_map_iff in Hin. destruct Hin as [[k2 ts2] [E Hin2]]. cbn [fst] in E.
+    destruct (Hpre k (or_introl eq_refl)) as [r1 E1].
+    destruct (Hpre k2 (or_intror (in_map fst _ _ Hin2))) as [r2 E2]. subst k k2.
+    rewrite !rebase_stack_prefix in E. apply app_inv_prefix in E. subst r2.
+    apply Hn. apply in_map_iff. exists (origin ++ r1, ts2). split; [reflexivity | exact Hin2].
+  - apply IH; [exact Hr|]. intros x Hx. apply Hpre. right. exact Hx.
+Qed.
+
+(* apply_generate: the equivalences between variables of the imported component's encapsulation tree, as recorded from the
+   library model, are re-created between the variables at the same relative stacks below the destination *)
+Theorem apply_generate_recreates : forall (L : model) (icomp : comp) (origin dest : path) cs eqs eqs',
+  dest <> [] ->
+  apply_map cs (rebase_map (record_comp L origin icomp []) origin dest) eqs = FOk eqs' ->
+  forall rk rt i v v1 v2,
+    In (origin ++ rk, v) (comp_vars_at origin icomp) ->            (* v: a variable of the imported tree, at relative stack rk *)
+    equiv_at L v (origin ++ rt ++ [i]) ->                          (* equivalent to the variable at relative stack rt ++ [i] *)
+    var_located_at cs (dest ++ rk) = LVar v1 -> var_located_at cs (dest ++ rt ++ [i]) = LVar v2 -> v_oid v1 <> v_oid v2 ->
+    has_pair eqs' (v_oid v1) (v_oid v2).
+Proof.
+  intros L icomp origin dest cs eqs eqs' Hd H rk rt i v v1 v2 Hv He E1 E2 Hne.
+  assert (Hh : em_has (record_comp L origin icomp []) (origin ++ rk) (origin ++ rt ++ [i])).
+  { apply record_comp_spec. right. exists v. split; assumption. }
+  destruct Hh as [ts [Hin Ht]].
+  apply (apply_rebased_complete cs _ origin dest eqs eqs' Hd (record_comp_rebased_nodup L icomp origin dest) H
+           (origin ++ rk) ts rk rt i v1 v2 Hin Ht eq_refl E1 E2 Hne).
+Qed.
